@@ -147,6 +147,13 @@ theorem ssl_plumbing_ok (keep : Bool) : plumbingOk (ssl_tail keep) ssl_engine_re
   cases keep <;> decide
 theorem jssl_plumbing_ok (keep : Bool) : plumbingOk (ssl_tail keep) jssl_engine_reads = true := by
   cases keep <;> decide
+/-- the k-space path of the training step is the one `sslOutput` models: prediction masked with the complement of
+the input mask (directly, or inside `_forward_operator`), plus the input k-space, projected on the target mask -/
+def kpathExpected : List String :=
+  ["forward:~mask", "mask:output_kspace:~mask", "dc:kspace+output_kspace",
+   "mask:output_kspace:data['target_sampling_mask']"]
+theorem ssl_engine_kpath_eq : ssl_engine_kpath = kpathExpected ∧ jssl_engine_kpath = kpathExpected := by decide
+
 /-- outside training the engines read the un-split keys -/
 theorem ssl_eval_reads : ssl_engine_reads.evalK = "masked_kspace" ∧ ssl_engine_reads.evalMask = "sampling_mask" ∧
     jssl_engine_reads.evalK = "masked_kspace" ∧ jssl_engine_reads.evalMask = "sampling_mask" := by decide
